@@ -826,7 +826,10 @@ def _loss_epilogue_ok():
         return "false"
     tr = body[0]
     hs = {_src(h.type): _src(h.body) for h in tr.handlers}
-    ok = "EOFError" in hs and "self._error = exc" in hs["EOFError"] and "Exception" in hs and not tr.finalbody and not tr.orelse
+    # the last handler takes EVERYTHING else (BaseException: a SystemExit raised by a callback must not skip the epilogue) and
+    # no handler re-raises
+    ok = "EOFError" in hs and "self._error = exc" in hs["EOFError"] and "BaseException" in hs and not tr.finalbody and not tr.orelse
+    ok = ok and _src(tr.handlers[-1].type) == "BaseException" and not any(isinstance(n, ast.Raise) for h in tr.handlers for n in ast.walk(h))
     ok = ok and [_src(n) for n in body[1:]] == ["self._channelfactory._finished_receiving()", "self._terminate_execution()", "self._io.close_read()", "self._io.close_write()", "self._receivepool.trigger_shutdown()"]
     return "true" if ok else "false"
 
